@@ -1,30 +1,31 @@
 ------------------------------ MODULE Trace_ClosuresImpl ------------------------------
-(* Runs the implementation model Closures (at the real page and closure sizes given by the
-   configuration) over the operation sequence of a recorded session and prints, per session, the
-   address (block * Gap + offset) the model predicts for every successful ffi.callback(); the
-   replayer checks that the real addresses are these up to one page-aligned base per block. *)
-EXTENDS Closures, Json, IOUtils
-VARIABLES k, i, pred, reported
+(* Runs the allocator of the implementation model Closures (the operators MoreCore / AllocOp /
+   FreeOp, at the real page and closure sizes given by the configuration) over the operation
+   sequence of a recorded session and prints, per session, the address (chunk * Gap + offset) the
+   model predicts for every successful ffi.callback(); the replayer checks that the real addresses
+   are these up to one page-aligned base per chunk.  The session is folded in one evaluation (a
+   session with tens of thousands of callbacks alive is too large to step state by state).
+   Events:  create / createfail / drop(j)  where j is the number of the create whose closure is freed. *)
+EXTENDS Closures, SequencesExt, Json, IOUtils
+VARIABLES k, reported
 Traces == JsonDeserialize(IOEnv.TRACE_FILE)
-tvars == <<vars, k, i, pred, reported>>
+tvars == <<vars, k, reported>>
+TInit == Init /\ k \in 1..Len(Traces) /\ reported = FALSE
 
-TInit == Init /\ k \in 1..Len(Traces) /\ i = 1 /\ pred = <<>> /\ reported = FALSE
+A0 == [fl |-> <<>>, npages |-> 0, nblocks |-> 0, maps |-> <<>>]
+Step(S, e) ==
+    CASE e.ev = "create"     -> LET r == AllocOp(S.A) IN [A |-> r.st, pred |-> Append(S.pred, r.item)]
+      [] e.ev = "createfail" -> LET r == AllocOp(S.A) IN [S EXCEPT !.A = FreeOp(r.st, r.item)]
+      [] e.ev = "drop"       -> [S EXCEPT !.A = FreeOp(S.A, S.pred[e.j])]
+      [] OTHER               -> S
+Predict(tr) == FoldLeft(Step, [A |-> A0, pred |-> <<>>], tr)
+\* every predicted block lies inside the bytes mapped for its chunk
+Inside(S) == \A i \in DOMAIN S.pred :
+               LET a == S.pred[i] b == a \div Gap IN a - Base(b) + SlotSize <= S.A.maps[b]
 
-Act(e) == CASE e.ev = "create"     -> Create(e.c, e.s)
-            [] e.ev = "createfail" -> CreateFail("cif")
-            [] e.ev = "drop"       -> Drop(e.c)
-            [] OTHER -> FALSE
-
-Consume == /\ i <= Len(Traces[k])
-           /\ LET e == Traces[k][i] IN
-                /\ Act(e)
-                /\ pred' = IF e.ev = "create" THEN Append(pred, last'.a) ELSE pred
-           /\ i' = i + 1 /\ UNCHANGED <<k, reported>>
-
-Report == /\ i > Len(Traces[k]) /\ ~reported
-          /\ PrintT("SLOTS " \o ToString(k) \o " " \o ToString(pred))
-          /\ reported' = TRUE /\ UNCHANGED <<vars, k, i, pred>>
-
-TNext == Consume \/ Report
-TSpec == TInit /\ [][TNext]_tvars
+Report == /\ ~reported
+          /\ LET S == Predict(Traces[k]) IN
+               PrintT("SLOTS " \o ToString(k) \o " " \o (IF Inside(S) THEN "in" ELSE "OUT") \o " " \o ToString(S.pred))
+          /\ reported' = TRUE /\ UNCHANGED <<vars, k>>
+TSpec == TInit /\ [][Report]_tvars
 =============================================================================
